@@ -5,6 +5,7 @@
   Helpers: PV/Model/PacketRoundtrip.lean, PV/Model/PacketFrag.lean.  Primitives are abstract (`Laws`).
 -/
 import PV.Model.PacketFrag
+import PV.Model.PacketWrite
 import PV.Generated.C03
 namespace PV.Props.C01
 open PV PV.Packet
@@ -103,6 +104,25 @@ example : (match readAll ⟨[], [1, 2, 3, 4, 5, 6, 7, 8], [.timeout true, .recv 
     | .rekey s => (s.data.length, s.sched.length) | _ => (0, 0)) = (8, 3) ∧
     (match readAll ⟨[], [1, 2, 3, 4, 5, 6, 7, 8], [.recv 2, .timeout true, .recv 9]⟩ 8 true with
     | .ok b s => (b.length, s.sched.length) | _ => (0, 0)) = (8, 0) := by decide
+
+/-- **Any behaviour of `send` on the write side.** The sender pushes every packet through `write_all` under an
+arbitrary schedule of `send` outcomes per packet (short writes of any size, timeouts, EAGAIN, in any order).  If no
+`write_all` raised, the bytes on the socket are the ones `roundtrip` is about, so the receiver — reading under any
+fragmentation / timeout / need-rekey schedule — delivers exactly the messages sent. -/
+theorem roundtrip_any_write_schedule {p : Prims} (W : Laws p) (ops : List (Op p)) (s : Sender p) (r : Receiver p)
+    (hp : PairedSt W s r) (hok : ∀ op ∈ ops, OpOk W op) (wscheds : List (List SendEv))
+    (s' : Sender p) (w : Bytes) (hs : sendAllW s ops wscheds = .ok (s', w)) (t : Bytes) (sched : List Ev) :
+    (recvAllSock r ops ⟨[], w ++ t, sched⟩).1 = msgsOf s.seq ops ∧
+    (recvAllSock r ops ⟨[], w ++ t, sched⟩).1.map (fun m => m.cmd :: m.payload) = sentData ops ∧
+    (recvAllSock r ops ⟨[], w ++ t, sched⟩).2.1 = none := by
+  obtain ⟨log, hl⟩ := sendAllW_eq ops s wscheds s' w hs
+  exact roundtrip_any_fragmentation W ops s r hp hok s' w log hl t sched
+
+/-- `write_all`: the bytes accepted by the socket are the packet (on return) or a proper prefix (on `EOFError`) -/
+theorem write_all_any_schedule (sched : List SendEv) (out : Bytes) (it : Nat) (w : Bytes) :
+    (∀ wr, writeAll sched out it w = .ok wr → wr = w ++ out) ∧
+    (∀ wr, writeAll sched out it w = .eof wr → ∃ k, wr = w ++ out.take k ∧ k < out.length) :=
+  writeAll_spec sched out it w
 
 /-- Every suite of the generated table meets the side conditions of `PairedSt` / `CiphPaired`:
 block size ≥ 4, AES-GCM rows carry the 16-byte tag as MAC length. -/
